@@ -89,7 +89,8 @@ def build_feed(rng, n_lines, malformed, limit_parsing=False):
             fr = enc.long_frame(17, rng.randrange(8), a, enc.me_ident(rng.randint(1, 4), 0, cs))
             lines.append(("good", enc.line(fr), a, cs))
         elif roll < 0.85:
-            fr = enc.long_frame(17, rng.randrange(8), a, enc.me_unique(rng.choice([0, 23, 25, 27]), counter))
+            # one in five comes as DF18 (TIS-B / ADS-R carry the address in the same place)
+            fr = enc.long_frame(18 if rng.random() < 0.2 else 17, rng.randrange(8), a, enc.me_unique(rng.choice([0, 23, 25, 27]), counter))
             lines.append(("good", enc.line(fr), a, None))
         elif roll < 0.92:
             # well-formed lines of other formats: processed, but nothing to count
@@ -220,9 +221,19 @@ def check_1090(col, binpath, rng, tag, seg_kind, delay_kind, malformed, scratch)
     # the close still has to come out (nothing about 1090's own fate after a disconnect is judged)
     closing = tag.rsplit("#", 1)[-1].isdigit() and int(tag.rsplit("#", 1)[-1]) % 3 == 1
     plan = steps + [("mark", "feed_done")] + ([("close",), ("sleep", 30)] if closing else [("sleep", 30)])
-    s = session.Dump1090Session(binpath, plan)
-    cls = f"seg={seg_kind}|delay={delay_kind}|malformed={malformed}" + ("|then_close" if closing else "")
-    inp = {"client": "1090", "segmentation": seg_kind, "delay": delay_kind, "malformed": malformed, "lines": [d.decode("latin1") for _, d, *_ in lines], "tag": tag}
+    # the two --panic-* options are for debugging the decoder: --panic-decode ends the client on a
+    # frame that does not decode, --panic-display on one that renders to nothing. Each is used only
+    # where its own condition cannot arise: then nothing may end the client.
+    has_empty_display = any(k == "other" and (d[1:3] in (b"98", b"99", b"9A", b"9B", b"9C", b"9D", b"9E", b"9F")) for k, d, *_ in lines)
+    n_tag = int(tag.rsplit("#", 1)[-1]) if tag.rsplit("#", 1)[-1].isdigit() else 0
+    extra = []
+    if n_tag % 4 == 2 and not has_empty_display:
+        extra = ["--panic-display"]
+    elif n_tag % 4 == 3 and malformed == "none":
+        extra = ["--panic-decode"]
+    s = session.Dump1090Session(binpath, plan, extra)
+    cls = f"seg={seg_kind}|delay={delay_kind}|malformed={malformed}" + ("|then_close" if closing else "") + ("|" + extra[0].lstrip("-") if extra else "")
+    inp = {"client": "1090", "options": extra, "segmentation": seg_kind, "delay": delay_kind, "malformed": malformed, "lines": [d.decode("latin1") for _, d, *_ in lines], "tag": tag}
     try:
         # wait until the feed is out and the client is quiet
         end = time.monotonic() + 90
